@@ -62,6 +62,7 @@ func main() {
 		"HashSchema.lean":     genHashSchema,
 		"Inventory.lean":      genInventory,
 		"ExportTemplate.lean": genExportTemplate,
+		"JournalFacts.lean":   genJournalFacts,
 	}
 	names := []string{}
 	for n := range gens {
